@@ -324,7 +324,7 @@ fn check_case(ctx: &Ctx, stream: &str, idx: u64, case: &MergeCase, rng: &mut Rng
 }
 
 pub fn run(ctx: &Ctx) -> i32 {
-    let n = ctx.n(40_000, 600_000);
+    let n = ctx.n(40_000, 3_000_000);
     ctx.par("random", n, true, |idx, rng| {
         let case = gen_case(rng);
         check_case(ctx, "random", idx, &case, rng);
